@@ -82,3 +82,36 @@ def judge (K : Cx) (g : Guarantee) : Judgement :=
       | some s => (predExpect K.D s (s.headD [])).orient.isNone) }
 
 end DM
+
+namespace DM
+
+/-- ASSUMPTION for exact-zero determinants only (DESIGN §6): the LU determinant of an exactly
+singular `[p | 1]` matrix whose coordinates are multiples of 1/8 with magnitude ≤ M evaluates to
+|fl(det)| ≤ 32·u·M^D, which is below the dead band `1e-12·M` as soon as `M^(D-1) ≤ 281`
+(D=2: M ≤ 281, D=3: M ≤ 16, D=4: M ≤ 6, D=5: M ≤ 4).  Larger or finer coordinates: not decidable.
+The C12 check measures the class separately (`pred.orient.zero.loose`). -/
+def smallHalfInts (pts : List DPt) : Bool :=
+  let d := (pts.headD []).length
+  let allEighths := pts.all (fun p => p.all (fun x => x.m == 0 || x.e ≥ -3))
+  -- M = max |coordinate| rounded up to an integer ≥ 1
+  let m8 := pts.foldl (fun acc p => p.foldl (fun a x => let v := iabs (x.scaled (-3)); if v > a then v else a) acc) 8
+  let M := (m8 + 7) / 8
+  allEighths && M ^ (d - 1) ≤ 281
+
+/-- decidable orientation class of a simplex: strict signs by the conservative rounding bound,
+exact zero additionally when the points are small half-integers -/
+def orientClass (D : Nat) (s : List DPt) : Option Int :=
+  let (e, exact) := orientExpect D s
+  match e with
+  | some o => some o
+  | none => if exact == 0 && smallHalfInts s then some 0 else none
+
+/-- side of query `q` relative to facet `i` of the cell with points `s` (slot order):
+`some true` strictly outside, `some false` inside or on the plane, `none` not exactly decidable -/
+def sideClass (D : Nat) (s : List DPt) (i : Nat) (q : DPt) : Option Bool :=
+  let facet := s.eraseIdx i
+  match orientClass D (facet ++ [s.getD i []]), orientClass D (facet ++ [q]) with
+  | some co, some qo => some (co * qo < 0)
+  | _, _ => none
+
+end DM
